@@ -590,6 +590,26 @@ pub fn run(ctx: &Ctx) {
         }
     });
 
+    // prolog soup: declarations, DOCTYPEs (also with an internal subset), look-alike PIs anywhere in the document
+    const PROLOG: [&str; 9] = ["<?xml version=\"1.0\"?>", "<?xml version=\"1.0\" encoding=\"UTF-8\" standalone=\"yes\"?>", "<!DOCTYPE d>", "<!DOCTYPE e [<!ENTITY x \"y\">]>", "<?xml-stylesheet href=\"s\"?>", "<a>", "</a>", "t", "&x;"];
+    const PROLOG_TARGETS: [usize; 10] = [0, 2, 3, 9, 10, 13, 19, 23, 24, 25];
+    let np = t.pick(5, 6);
+    ctx.layer("prolog_soup", 4, count_upto(9, np), json!({"tokens": PROLOG, "max_tokens": np, "targets": PROLOG_TARGETS.iter().map(|&t| TARGETS[t]).collect::<Vec<_>>()}), |i, acc| {
+        let mut d = Vec::new();
+        decode_upto(9, np, i, &mut d);
+        let mut doc = String::new();
+        for &x in &d {
+            doc.push_str(PROLOG[x as usize]);
+        }
+        acc.nt_count += 1;
+        for &tt in &PROLOG_TARGETS {
+            call(acc, (4, i), doc.as_bytes(), tt, false, 0, &known);
+            for &p in pieces {
+                call(acc, (4, i), doc.as_bytes(), tt, true, p, &known);
+            }
+        }
+    });
+
     // documents in a non-UTF-8 encoding (owned, re-encoded content in the deserializer), `full` build only
     #[cfg(feature = "full")]
     {
